@@ -32,7 +32,7 @@ inductive Outcome (α : Type) where
   | ok (a : α)
   | err (e : ErrKind)
   | panic (site : Str)
-deriving Repr, Inhabited
+deriving Repr, Inhabited, DecidableEq
 
 namespace Outcome
 
@@ -45,6 +45,13 @@ def bind {α β} (x : Outcome α) (f : α → Outcome β) : Outcome β :=
 instance : Monad Outcome where
   pure := ok
   bind := bind
+
+/-- same result up to the place where a panic is raised -/
+def agrees {α} [DecidableEq α] : Outcome α → Outcome α → Bool
+  | ok a, ok b => a == b
+  | err e, err f => e == f
+  | panic _, panic _ => true
+  | _, _ => false
 
 def isOk {α} : Outcome α → Bool
   | ok _ => true
